@@ -118,6 +118,31 @@ pub struct World {
     pub term: TermCfg,
 }
 
+/// the csv text of a vehicle-restriction table. tables with an even number of rows are written with the rows of one
+/// edge apart from each other (all first rows in descending edge order, then all second rows ...), the others in the
+/// generator's edge-by-edge order: the file's row order carries no meaning
+pub fn vehicle_rows_csv(rows: &[(usize, String, f64, String)]) -> String {
+    let mut order: Vec<usize> = (0..rows.len()).collect();
+    if rows.len() % 2 == 0 {
+        let mut seen: HashMap<usize, usize> = HashMap::new();
+        let occ: Vec<usize> = rows
+            .iter()
+            .map(|r| {
+                let c = seen.entry(r.0).or_insert(0);
+                *c += 1;
+                *c
+            })
+            .collect();
+        order.sort_by_key(|i| (occ[*i], std::cmp::Reverse(rows[*i].0)));
+    }
+    let mut s = String::from("edge_id,restriction_name,restriction_value,restriction_unit\n");
+    for i in order {
+        let (e, n, v, u) = &rows[i];
+        s.push_str(&format!("{e},{n},{v:?},{u}\n"));
+    }
+    s
+}
+
 pub fn rate_value(r: &VehicleCostRate, x: f64) -> f64 {
     match r {
         VehicleCostRate::Zero => 0.0,
@@ -269,6 +294,23 @@ impl World {
                     road_class_lookup: Arc::new(classes.clone().into_boxed_slice()),
                     road_class_parser: parser,
                 })
+            }
+            FrontierCfg::Vehicle { rows } if rows.len() % 3 == 0 => {
+                // a third of the tables go through the real builder and its csv loader
+                use routee_compass::app::compass::config::frontier_model::vehicle_restrictions::vehicle_restriction_builder::VehicleRestrictionBuilder;
+                use routee_compass_core::model::frontier::frontier_model_builder::FrontierModelBuilder;
+                use std::sync::atomic::{AtomicU64, Ordering};
+                static NV: AtomicU64 = AtomicU64::new(0);
+                let dir = std::path::PathBuf::from(crate::root()).join(".work");
+                let _ = std::fs::create_dir_all(&dir);
+                let path = dir.join(format!("turns-v{}-{}.csv", std::process::id(), NV.fetch_add(1, Ordering::Relaxed)));
+                let _ = std::fs::write(&path, vehicle_rows_csv(rows));
+                let built = VehicleRestrictionBuilder {}.build(&json!({"vehicle_restriction_input_file": path.to_string_lossy()}));
+                let _ = std::fs::remove_file(&path);
+                match built {
+                    Ok(s) => s,
+                    Err(e) => panic!("vehicle restriction builder refused the generator's file: {e}"),
+                }
             }
             FrontierCfg::Vehicle { rows } => {
                 let mut lookup: HashMap<EdgeId, Vec<VehicleRestriction>> = HashMap::new();
